@@ -175,7 +175,7 @@ def check_sock(gen, run):
             if retries == 0:
                 obs["_nonidem_resent"] = 1
         for a in att:
-            if a["t"] >= expiry - 1e-12:
+            if a["t"] >= expiry:   # same float arithmetic as the client (call time + lifetime)
                 v("attempt-at-or-after-expiry", serial=r["serial"], at=a["t"], expiry=expiry,
                   policy=r["policy"])
         nf = [a for a in att if a["fault"]]
